@@ -2,3 +2,4 @@ MUTANTS=[
  ("C14","S3-headers-served-through-block-cache (seeded/C14-c) on C14",dict(patch="/verif/seeded/C14-c/patch.diff")),
  ("C07","S4-cache-keeps-rejected-slice (seeded/C07-c) on C07",dict(patch="/verif/seeded/C07-c/patch.diff")),
 ]
+MUTANTS.append(("C14","S5-receipts-null-result-accepted (seeded/C14-d) on C14",dict(patch="/verif/seeded/C14-d/patch.diff")))
